@@ -342,22 +342,14 @@ def check_sol(case):
                 return result([Viol(dict(sig, kind="general-stalls"),
                                     f"{pair}: the general configuration does not converge (objective {Fb!r} after the full budget, start {Fs!r}) "
                                     f"while the special case converges to {Fa!r}")], True, [pair, "general-not-converged"])
-        # Stagnation at a non-stationary point.  One pass of (greedy or cyclic) coordinate descent over a coordinate
-        # whose optimality violation is v decreases the objective by at least v^2 / (2 L_j); a history (true objective,
-        # C17) that is flat over its last 1000 iterations while the reference-maths violation of the returned point is
-        # thousands of tolerances is a fixed point of the iteration that is not a solution -- no budget argument.
-        if pair.startswith("GramCD") and o2.w is not None and o2.obj is not None and len(o2.obj) >= 2000 \
-                and np.all(np.isfinite(np.asarray(w2, float))):
+        # Stagnation at a non-stationary point (c01.stagnation: flat true-objective history vs the gain one coordinate
+        # pass guarantees) -- no budget argument
+        if pair.startswith("GramCD"):
             from . import c01
-            v = float(c01.certificate(ref, np.asarray(w2, float), "subdiff")["feat"])
-            Lmax = float(np.max(P.coord_lipschitz(ref)))
-            obj = np.asarray(o2.obj, float)
-            drop = float(obj[-1001] - obj[-1])
-            if v > 1e3 * tol and Lmax > 0 and drop < 1e-2 * v * v / (2 * Lmax):
-                return result([Viol(dict(sig, kind="general-stagnates"),
-                                    f"{pair}: the general configuration stops moving at a point whose optimality violation is {v:.3e} "
-                                    f"(objective change over its last 1000 iterations {drop:.1e}; one coordinate pass must gain >= {v * v / (2 * Lmax):.1e}) "
-                                    f"while the special case converges")], True, [pair, "general-not-converged"])
+            msg = c01.stagnation(g, o2, tol)
+            if msg:
+                return result([Viol(dict(sig, kind="general-stagnates"), f"{pair}: the general configuration {msg}, while the special case converges")],
+                              True, [pair, "general-not-converged"])
         return result([], False, [pair, "general-not-converged(inconclusive)"])
     viol += M.compare(ref, w_ref, np.asarray(w2, float), tol, pair, sig, Viol, factor=4. if pair.startswith("FISTA") else 2.)
     return result(viol, bool(np.any(w_ref)), [pair])
